@@ -697,4 +697,63 @@ theorem parentEnvAt_copies (E : CteEnv) (sibs : List CteEnv) (i : Nat) : parentE
       simp only [parentEnvAt, afterChild, Bool.true_or, if_true]
       exact ih i
 
+
+/-! memo in front of normKey -/
+
+open SqlglotModel.Ident in
+/-- every entry holds what normKey answers for ANY strategy its key stands for -/
+def MemoOk (hs : Bool) (f : CaseFns) (memo : NormMemo) : Prop :=
+  ∀ kv ∈ memo, ∀ (cls : String) (s : Strategy) (parts : List Ident),
+    kv.1 = memoKey hs parts cls s → kv.2 = normKey f s parts
+
+theorem memoFind_mem {k : MemoKey} {memo : NormMemo} {v : String} (h : memoFind k memo = some v) : (k, v) ∈ memo := by
+  induction memo with
+  | nil => simp [memoFind] at h
+  | cons x xs ih =>
+    obtain ⟨k', w⟩ := x
+    simp only [memoFind] at h
+    split at h
+    · cases h; subst_vars; exact List.mem_cons_self
+    · exact List.mem_cons_of_mem _ (ih h)
+
+open SqlglotModel.Ident in
+/-- the key determines the answer: it contains the settings, or normalisation does not depend on them -/
+def KeyDetermines (hs : Bool) (f : CaseFns) : Prop :=
+  hs = true ∨ ∀ (s s' : Strategy) (p : List Ident), normKey f s p = normKey f s' p
+
+open SqlglotModel.Ident in
+theorem normKeyMemo_sound {hs : Bool} {f : CaseFns} (hk : KeyDetermines hs f) (cls : String) (s : Strategy)
+    (parts : List Ident) (memo : NormMemo) (hm : MemoOk hs f memo) :
+    (normKeyMemo hs f cls s parts memo).1 = normKey f s parts ∧ MemoOk hs f (normKeyMemo hs f cls s parts memo).2 := by
+  unfold normKeyMemo
+  cases hf : memoFind (memoKey hs parts cls s) memo with
+  | some v => exact ⟨hm _ (memoFind_mem hf) cls s parts rfl, hm⟩
+  | none =>
+    refine ⟨rfl, ?_⟩
+    intro kv hkv cls' s' parts' hkey
+    rcases List.mem_cons.mp hkv with rfl | hmem
+    · simp only [memoKey, MemoKey.mk.injEq] at hkey
+      obtain ⟨hp, _, hs'⟩ := hkey
+      subst hp
+      rcases hk with h | h
+      · subst h
+        simp only [if_true, Option.some.injEq] at hs'
+        subst hs'
+        rfl
+      · exact h _ _ _
+    · exact hm kv hmem cls' s' parts' hkey
+
+open SqlglotModel.Ident in
+theorem runNormMemo_sound {hs : Bool} {f : CaseFns} (hk : KeyDetermines hs f)
+    (calls : List (String × Strategy × List Ident)) :
+    ∀ memo, MemoOk hs f memo → runNormMemo hs f calls memo = calls.map fun c => normKey f c.2.1 c.2.2 := by
+  induction calls with
+  | nil => intro _ _; rfl
+  | cons c rest ih =>
+    intro memo hm
+    obtain ⟨cls, s, parts⟩ := c
+    obtain ⟨h1, h2⟩ := normKeyMemo_sound hk cls s parts memo hm
+    simp only [runNormMemo, List.map_cons]
+    rw [h1, ih _ h2]
+
 end SqlglotModel.Lineage
